@@ -220,9 +220,14 @@ def _menu_sizes(cn, dim, max_n, L_range):
     return out
 
 
+_SHARED = None          # set by a 'session' case: every request of the session goes to ONE backend
+
+
 def _client():
     import logging
     from panqec.gui import GUI
+    if _SHARED is not None:
+        return _SHARED
     gui = GUI()
     gui.app.logger.disabled = True
     logging.getLogger('werkzeug').disabled = True
@@ -292,7 +297,40 @@ def cases(tier, seed):
     for lst in (cd, ne, de):
         lst.sort(key=lambda t: t[0])
         out += [c for _, c in lst]
-    return out
+    # sessions: request sequences against one backend (deformation toggled, size changed, then decode /
+    # new-errors), built from the request cases above
+    sessions = []
+    by_code = {}
+    for _, c in cd:
+        by_code.setdefault(c['code_name'], []).append(c)
+    for name, lst in by_code.items():
+        if lst[0]['cls'] == 'Color666ToricCode':
+            lst = [c for c in lst if len(set(c['size'])) == 1]          # D12b sizes cannot be built at all
+        sizes = []
+        for c in lst:
+            if c['size'] not in sizes:
+                sizes.append(c['size'])
+        sizes = sizes[:2]
+        at = {(tuple(c['size']), c['deformation']): c for c in lst}
+        defs = [d for d in dict.fromkeys(c['deformation'] for c in lst) if d != 'None']
+        s0 = tuple(sizes[0])
+        first_dec = next((c for _, c in de if c['code_name'] == name and tuple(c['size']) == s0
+                          and c['deformation'] == 'None' and c['noise_deformation'] == 'None'), None)
+        first_ne = next((c for _, c in ne if c['code_name'] == name and tuple(c['size']) == s0
+                         and c['deformation'] == 'None'), None)
+        for d in defs:
+            sessions.append({'kind': 'session', 'seq': [at[(s0, d)], at[(s0, 'None')]]})
+            sessions.append({'kind': 'session', 'seq': [at[(s0, 'None')], at[(s0, d)], at[(s0, 'None')]]})
+            if first_dec is not None:
+                sessions.append({'kind': 'session', 'seq': [at[(s0, d)], first_dec]})
+            if first_ne is not None:
+                sessions.append({'kind': 'session', 'seq': [at[(s0, d)], first_ne]})
+        if len(defs) > 1:
+            sessions.append({'kind': 'session', 'seq': [at[(s0, defs[0])], at[(s0, defs[1])], at[(s0, defs[0])]]})
+        if len(sizes) > 1:
+            s1 = tuple(sizes[1])
+            sessions.append({'kind': 'session', 'seq': [at[(s0, 'None')], at[(s1, 'None')], at[(s0, 'None')]]})
+    return out + sessions
 
 
 # ---- evaluation ----------------------------------------------------------------------------
@@ -673,8 +711,47 @@ def _eval_decode(case):
     return res
 
 
+def _eval_session(case):
+    """A menu session: several requests answered by ONE backend object, each judged by the same absolute
+    oracle as when it is the only request (a backend that remembers a code between requests must not let
+    an earlier choice of deformation / size leak into a later answer)."""
+    global _SHARED
+    _SHARED = None
+    _SHARED = _client()
+    total = _new()
+    try:
+        for pos, sub in enumerate(case['seq']):
+            r = eval_case(sub)
+            for v in r.get('violations', []):
+                v['key']['session_position'] = pos
+                v['key']['part'] = 'session'
+                v['detail']['requests_before'] = [
+                    '%s %s %s def=%s' % (q['kind'], q['code_name'], q['size'], q['deformation'])
+                    for q in case['seq'][:pos]]
+            for k, val in r.items():
+                if isinstance(val, bool):
+                    continue
+                if isinstance(val, int):
+                    total[k] = total.get(k, 0) + val
+                elif isinstance(val, list):
+                    total[k] = (total.get(k) or []) + val
+                elif isinstance(val, dict):
+                    tgt = total.setdefault(k, {})
+                    for kk, vv in val.items():
+                        tgt[kk] = tgt.get(kk, 0) + vv
+    finally:
+        _SHARED = None
+    total['samples'] = [{'session': ['%s %s %s def=%s' % (q['kind'], q['code_name'], q['size'], q['deformation'])
+                                     for q in case['seq']]}]
+    total['outcomes'] = (total.get('outcomes') or [])[:50]
+    _bump(total, 'sessions')
+    return total
+
+
 def eval_case(case):
     kind = case['kind']
+    if kind == 'session':
+        return _eval_session(case)
     if kind == 'names':
         return _eval_names(case)
     if kind == 'code-data':
